@@ -14,6 +14,7 @@ import (
 	"testing"
 	"unsafe"
 
+	"github.com/bytedance/sonic/internal/cpu"
 	"github.com/bytedance/sonic/internal/jit"
 	"github.com/bytedance/sonic/internal/native"
 	"github.com/bytedance/sonic/internal/rt"
@@ -160,8 +161,28 @@ func TestVerifDump(t *testing.T) {
 			d.Program = append(d.Program, ins.disassemble())
 			d.Ops = append(d.Ops, verifOpOf(ins))
 		}
+		d.Consts["MODE_JSON"] = int64(_MODE_JSON)
 		d.Ins = as.BaseAssembler.VerifDump(as.compile)
 		verifWrite(d)
+	}
+	// the []byte decoder as it is generated when the process runs without AVX2 (SONIC_MODE=noavx2
+	// clears this flag): generated code may select equivalent routines by CPU level, nothing else
+	{
+		old := cpu.HasAVX2
+		cpu.HasAVX2 = false
+		prog, err := newCompiler().compile(reflect.TypeOf([]byte{}))
+		if err != nil {
+			t.Fatal(err)
+		}
+		as := newAssembler(prog)
+		d := verifDump{Name: "dec_bytes_noavx2", Kind: "typed", Consts: map[string]int64{"MODE_JSON": int64(_MODE_JSON)}}
+		for _, ins := range prog {
+			d.Program = append(d.Program, ins.disassemble())
+			d.Ops = append(d.Ops, verifOpOf(ins))
+		}
+		d.Ins = as.BaseAssembler.VerifDump(as.compile)
+		verifWrite(d)
+		cpu.HasAVX2 = old
 	}
 	// the generic (interface{}) decoder
 	vd := new(_ValueDecoder)
